@@ -49,6 +49,10 @@ def run(rep, drv):
 					d2[kk] += 2.0 ** -rng.randint(20, 40)
 		req = rng.random() < .4
 		rel = rng.choice([1e-9, 0.0, 2.0 ** -10]); ab = rng.choice([0.0, 0.0, 2.0 ** -8])
+		if rng.random() < .5:
+			# a key present in only one dict, at / inside / outside the absolute tolerance around zero
+			tgt = rng.choice([d1, d2])
+			tgt[rng.choice([20, 21, 22])] = rng.choice([1, -1]) * rng.choice([ab / 2, ab, 2 * ab, 2.0 ** -30, 0.0])
 		case = {'d1': [[a, fr(b)] for a, b in d1.items()], 'd2': [[a, fr(b)] for a, b in d2.items()], 'req': req, 'rel': fr(rel), 'abs': fr(ab)}
 		rep.case('dict_match', case)
 		rep.count('dict_match:' + ('same-keys' if set(d1) == set(d2) else 'different-keys'))
